@@ -145,6 +145,32 @@ macro_rules! agree_body {
     }};
 }
 
+
+/// digit template: optional sign + exactly $N symbolic decimal digits (reaches the 4/8-digit SWAR paths and the overflow edge)
+macro_rules! digits_body {
+    ($t:ty, $N:expr, $signed:expr) => {{
+        const FORMAT: u128 = crate::radix_format(10);
+        let ds: [u8; $N] = any();
+        let mut buf = [0u8; $N + 1];
+        let neg: bool = any();
+        if !$signed { assume(!neg); }
+        let mut i = 0;
+        let off = neg as usize;
+        if neg { buf[0] = b'-'; }
+        while i < $N { assume(ds[i] >= b'0' && ds[i] <= b'9'); buf[off + i] = ds[i]; i += 1; }
+        let s = &buf[..$N + off];
+        let nmd: bool = any();
+        let opts = Options::builder().no_multi_digit(nmd).build_unchecked();
+        let exp = refscan!($t, s, 10, false);
+        let rc = <$t>::from_lexical_with_options::<FORMAT>(s, &opts);
+        cmp_complete!($t, rc, exp, s.len());
+        let expp = refscan!($t, s, 10, true);
+        let rp = <$t>::from_lexical_partial_with_options::<FORMAT>(s, &opts);
+        cmp_partial!($t, rp, expp, s.len());
+        cover(neg);
+    }};
+}
+
 crate::harnesses! {
     /// u8 decimal complete == scan_int, all byte strings len <= 4.
     /// @prop C04 C10 C16
@@ -186,4 +212,62 @@ crate::harnesses! {
     /// @fn lexical-parse-integer::algorithm::algorithm_partial[i8]
     #[cfg_attr(kani, kani::unwind(6))]
     fn parse_i8_r10_agree_len4() { agree_body!(i8, 4, 10, 1, false) }
+
+    /// u16 decimal complete == scan_int, strings len <= 6 over the number alphabet.
+    /// @prop C04 C10
+    /// @tier thorough
+    /// @feat default compact
+    /// @bound input length <= 6 bytes over {0-9 + - a Z _ . 0xff}
+    /// @fn lexical-parse-integer::algorithm::algorithm_complete[u16]
+    /// @timeout 3000
+    #[cfg_attr(kani, kani::unwind(8))]
+    fn parse_u16_r10_complete_alpha_len6() { complete_body!(u16, 6, 10, 1, false) }
+
+    /// i16 decimal complete == scan_int, strings len <= 6 over the number alphabet.
+    /// @prop C04 C10
+    /// @tier thorough
+    /// @feat default compact
+    /// @bound input length <= 6 bytes over {0-9 + - a Z _ . 0xff}
+    /// @fn lexical-parse-integer::algorithm::algorithm_complete[i16]
+    /// @timeout 3000
+    #[cfg_attr(kani, kani::unwind(8))]
+    fn parse_i16_r10_complete_alpha_len6() { complete_body!(i16, 6, 10, 1, false) }
+
+    /// u32: [sign +] exactly 10 symbolic digits (4-digit SWAR path, overflow edge 4294967295/6), symbolic no_multi_digit.
+    /// @prop C04 C10
+    /// @feat default
+    /// @bound inputs of the shape [0-9]{10}, both no_multi_digit settings
+    /// @fn lexical-parse-integer::algorithm::algorithm_complete[u32] (parse_digits_checked / try_parse_4digits)
+    /// @timeout 3000
+    #[cfg_attr(kani, kani::unwind(13))]
+    fn parse_u32_10digits() { digits_body!(u32, 10, false) }
+
+    /// i32: optional '-' + exactly 10 symbolic digits.
+    /// @prop C04 C10
+    /// @tier thorough
+    /// @feat default
+    /// @bound inputs of the shape -?[0-9]{10}
+    /// @fn lexical-parse-integer::algorithm::algorithm_complete[i32]
+    /// @timeout 3000
+    #[cfg_attr(kani, kani::unwind(14))]
+    fn parse_i32_10digits() { digits_body!(i32, 10, true) }
+
+    /// u64: exactly 20 symbolic digits (8-digit SWAR path, overflow edge), symbolic no_multi_digit.
+    /// @prop C04 C10
+    /// @tier thorough
+    /// @feat default
+    /// @bound inputs of the shape [0-9]{20}
+    /// @fn lexical-parse-integer::algorithm::algorithm_complete[u64] (try_parse_8digits)
+    /// @timeout 3600
+    #[cfg_attr(kani, kani::unwind(23))]
+    fn parse_u64_20digits() { digits_body!(u64, 20, false) }
+
+    /// u32: 6 symbolic digits with leading zeros region (no overflow possible): unchecked SWAR path only.
+    /// @prop C04 C10 C16
+    /// @feat default
+    /// @bound inputs of the shape [0-9]{6}
+    /// @fn lexical-parse-integer::algorithm::algorithm_complete[u32] (parse_digits_unchecked)
+    /// @timeout 1800
+    #[cfg_attr(kani, kani::unwind(9))]
+    fn parse_u32_6digits() { digits_body!(u32, 6, false) }
 }
